@@ -49,7 +49,8 @@ Inductive ev :=
 (* semaphores *)
 | SemCreate (p : nat) | SemRegister (i : nat) | SemGuard (i : nat)
 | SemCollect (i : nat)             (* the owning object is garbage collected: first step of the finalizer *)
-| SemForget (i : nat).             (* ... its second step; which of unlink / UNREGISTER comes first is read off the source *)
+| SemForget (i : nat)              (* ... its second step; which of unlink / UNREGISTER comes first is read off the source *)
+| Bootstrap (p : nat).             (* a child's _bootstrap(): BaseProcess would clear the finalizer registry at this point *)
 
 
 Definition step (s : state) (e : ev) : option state :=
@@ -158,6 +159,16 @@ Definition step (s : state) (e : ev) : option state :=
           | Some (mkp true _) => if semlock_cleanup_unlinks_then_unregisters then None
                                  else Some (mk (procs s) (trackers s) (upd (sems s) i (fun _ => mks false o Unregistered t)))
           | _ => None end
+      | _ => None end
+  | Bootstrap p =>
+      match nth_error (procs s) p with
+      | Some (mkp true _) =>
+          (* semaphores created while the child started up (main module re-imported, process object unpickled) keep their
+             finalizer only if LokyProcess does not clear the registry -- read off loky/backend/process.py *)
+          if child_keeps_finalizers_registered_during_startup then Some s
+          else Some (mk (procs s) (trackers s)
+                        (map (fun y => if Nat.eqb (s_owner y) p && match s_stage y with Guarded => true | _ => false end
+                                       then mks (s_exists y) (s_owner y) Registered (s_tracker y) else y) (sems s)))
       | _ => None end
   end.
 
